@@ -1658,6 +1658,8 @@ fn call_maybe_known_method_common<'v>(
         // If pointers are equal, getattr would return the same method
         // we already have.
         if ptr::eq(methods, known_method.type_methods) {
+            // Same as in `call_method_common`: a method call is a tick.
+            eval.report_forward_progress()?;
             let r = eval.with_call_stack(known_method.to_value(), Some(span), |eval| {
                 known_method.invoke_method(this, arguments, eval)
             })?;
